@@ -40,6 +40,10 @@ Theorem C12_deadline_free_configs :
 Proof. exact run_ctx_inf_iff. Qed.
 Print Assumptions C12_deadline_free_configs.
 
+(* (the temporary-key exchange of a PFS connect runs under the same context as the permanent one) *)
+Theorem C12_pfs_second_exchange_same_ctx : c_ctx_pfs_temp = c_ctx_pfs_perm.
+Proof. exact pfs_temp_same_ctx. Qed.
+
 (* A step whose loop arms a fresh timeout for every skipped frame outlives the timeout by n * gap
    (second repaired defect: readUnencrypted's -404 loop). *)
 Theorem C12_restart_op_late :
